@@ -139,7 +139,7 @@ Qed.
 Lemma cmp_letters_bytes a b : cmp_letters a b = bytes_cmp a b.
 Proof. destruct a; destruct b; reflexivity. Qed.
 
-(* suffix order: (table rank or 1000, name if unknown, number) *)
+(* suffix order: (table rank or the unknown rank, name if unknown, number) *)
 Definition sf_key (s : suffix) : Z * bytes * Z :=
   match lookup (sf_name s) suffixOrder with
   | Some o => (o, [], sf_number s)
@@ -158,14 +158,25 @@ Proof.
   destruct (beq k k'); [intros H; injection H as ->; auto|auto].
 Qed.
 
-(* every rank of the table is below the rank of unknown suffixes *)
+(* The only fact about the concrete numbers of the (generated) rank table that the order laws
+   need: every rank of the table is below the rank given to unknown suffixes.  It is a computed
+   side condition, so any table satisfying it re-proves everything below. *)
+Definition ranks_below (table : list (bytes * Z)) (unknown : Z) : bool :=
+  forallb (fun kv => (snd kv <? unknown)%Z) table.
+
+Lemma suffixOrder_ranks_below : ranks_below suffixOrder unknownSuffixPrecedence = true.
+Proof. vm_compute. reflexivity. Qed.
+
+Lemma ranks_below_in table unknown o :
+  ranks_below table unknown = true -> In o (map snd table) -> (o < unknown)%Z.
+Proof.
+  unfold ranks_below. rewrite forallb_forall. intros H Hin.
+  apply in_map_iff in Hin. destruct Hin as (kv & <- & Hkv). apply Z.ltb_lt, H, Hkv.
+Qed.
+
 Lemma suffixOrder_below o :
   In o (map snd suffixOrder) -> (o < unknownSuffixPrecedence)%Z.
-Proof.
-  assert (H : forallb (fun x => (x <? unknownSuffixPrecedence)%Z) (map snd suffixOrder) = true)
-    by (vm_compute; reflexivity).
-  rewrite forallb_forall in H. intros Hin. apply H in Hin. apply Z.ltb_lt. exact Hin.
-Qed.
+Proof. apply ranks_below_in, suffixOrder_ranks_below. Qed.
 
 Lemma cmp_suffix_key a b : cmp_suffix a b = cmp_on sf_key cmp_skey a b.
 Proof.
